@@ -4,6 +4,23 @@ spec/FixedColOps.tla     column tables (PDB ATOM/TER/CONECT, GRO atom line), Ren
 spec/FixedCol.tla        TAB model over boundary cases, operational = declarative, round-trip laws          (TAB)
 spec/Trace_FixedCol.tla  TLC judges files written and read back by the real code, line by line              (TRACE)
 
+Extension (GRO column widths, files vermouth did not write):
+  * `GroAtomWPV(w, vel)`: coordinate fields of width w = write_gro precision + 1 from column 21, velocities of the same width
+    with four decimals after them; TAB 'grow' cases for widths 8, 9, 10, 12 x velocities (values at both ends of the range
+    of each width, the first values that do not fit the next narrower width); `GroWidthLaws` (the text shows its width and
+    whether it has velocities; a full record is read alike by NO other width), `Width8IsTheOldTable`, `BoundariesCovered`.
+    Every grow case sits in a real file of its width; the files are read in SEQUENCES inside one process (four different
+    widths one after the other, the first once more; random sequences over widths 7..13), every read judged by TLC.
+  * 'fpdb' / 'fgro' events: PDB / GRO text as other programs write it (HETATM, ANISOU / REMARK / CRYST1 / SEQRES ...,
+    four-column atom names, right-aligned two-letter elements, blank chain, negative residue numbers, insertion codes,
+    alternate locations, charge column, short lines, MODEL / ENDMDL with modelidx, no END, bare TER, CONECT continuation
+    lines in both directions with unseparated five-wide serials; GRO: free-form title / count line, 3 or 9 box numbers,
+    numbers wrapping at 100000, velocities, widths 8-10) is read by the real readers; TLC reads the TEXT with the column
+    tables (`FPdbView`: kept lines, division by TER / END / ENDMDL, `FPdbBonds`) and compares atoms, order, molecules and
+    bonds; what was read is written, read again (judged like any written system) and written once more (fixed point).
+  CIF (vermouth/pdb/cif.py, CIFInput) is NOT bound: the statement is about writing PDB / GRO and reading it back, there is
+  no CIF writer and the anchors do not name the CIF reader.
+
 spec -> code: every atom case of the TAB model (attribute values at and beyond the column widths) is placed on an
 atom of a real vermouth System, every sys case (hub atom next to a serial-number boundary with 0..6 bonds) becomes
 bonds of that System; the System is written by the real writer (write_pdb_string / write_pdb / write_gro), read by the
@@ -34,7 +51,7 @@ LETTERS = string.ascii_uppercase
 
 TAB_CFG = ("SPECIFICATION Spec\nINVARIANT OtherFieldsUnaffected\nINVARIANT RoundTripWithinWidth\nINVARIANT OpIsDecl\n"
            "INVARIANT TruncationKeepsTheDocumentedEnd\nINVARIANT ConectExactUpTo99999\nINVARIANT TerSplitsMolecules\n"
-           "INVARIANT PartnersInSameMolecule\n")
+           "INVARIANT PartnersInSameMolecule\nINVARIANT Width8IsTheOldTable\nINVARIANT GroWidthLaws\nINVARIANT BoundariesCovered\n")
 
 Q_SHAPES = [[10005], [9999, 6], [9998, 3, 6], [4000, 5998, 7]]
 T_SHAPES = Q_SHAPES + [[5000] * 19 + [4980],            # last atom has serial 99999, its TER 100000
@@ -48,7 +65,26 @@ def tla_set(vals):
     return tlc.tlaval.to_tla(set(vals))
 
 
+WIDTHS = (8, 9, 10, 12)
+# per coordinate width: values (integer thousandths; the same integers serve as ten-thousandths for velocities) that fit
+# the width - both ends of the range, the first values that do NOT fit the next narrower width, and ordinary ones
+COORDS_P = {8: [-999999, -100000, 9999999, 1000000, 1234567, -123456, 999999, -99999, 0, -1],
+            9: [-9999999, -1000000, 99999999, 10000000, 12345678, -1234567, 9999999, -999999, 0, 1],
+            10: [-99999999, -10000000, 999999999, 100000000, 123456789, -12345678, 99999999, -9999999, 0, -1],
+            12: [-1999999999, -1000000000, 1999999999, 1000000000, 1234567890, -100000000, 999999999, -99999999, 0, 1]}
+
+
+def _grow_consts():
+    return {'Widths': '{%s}' % ','.join(map(str, WIDTHS)),
+            'CoordsP': '(' + ' @@ '.join('%d :> <<%s>>' % (w, ','.join(map(str, COORDS_P[w]))) for w in WIDTHS) + ')',
+            'NamesP': tla_set(["CA", "ABCDE1"]), 'ResNamesP': tla_set(["ALA", "ALANIN"]), 'ResIdsP': '{-1,99999,100000}'}
+
+
 def tab_consts(tier):
+    return dict(_tab_consts(tier), **_grow_consts())
+
+
+def _tab_consts(tier):
     if tier == 'quick':
         return {'Names': tla_set(["C", "CA", "HB1", "HD21", "HD211", "ABCDE1"]),
                 'ResNames': tla_set(["A", "ALA", "ALAN", "ALANI", "ALANIN"]),
@@ -87,7 +123,7 @@ COORDS = [-999999, -999998, -100000, -10000, -1000, -999, -1, 0, 1, 999, 1000, 9
           1000000, 9999998, 9999999]
 
 
-def random_atom(rng):
+def random_atom(rng, w=8):
     """Attribute values of a filler atom: a mix of boundary values and ordinary ones (all inside what C16 specifies:
     names/residue names without blanks, coordinates inside the representable range -999.999 .. 9999.999)."""
     a = {'name': random_name(rng),
@@ -95,13 +131,20 @@ def random_atom(rng):
          'resid': rng.choice(RESIDS) if rng.random() < 0.3 else rng.randint(-1200, 120000),
          'chain': rng.choice(['', 'A', 'B', 'Z', 'AB', '1']), 'icode': rng.choice(['', '', '', 'A', 'C']),
          'elem': rng.choice(['', '', 'C', 'N', 'CL', 'XYZ'])}
+    lo, hi = max(-1999999999, -(10 ** (w - 2) - 1)), min(1999999999, 10 ** (w - 1) - 1)
+    pool = COORDS_P.get(w, [lo, hi, lo + 1, hi - 1, 0, -1])
     for ax in 'xyz':
-        a[ax] = rng.choice(COORDS) if rng.random() < 0.3 else rng.randint(-999999, 9999999)
+        if w == 8:
+            a[ax] = rng.choice(COORDS) if rng.random() < 0.3 else rng.randint(-999999, 9999999)
+        else:
+            a[ax] = rng.choice(pool) if rng.random() < 0.3 else rng.choice([rng.randint(lo, hi), rng.randint(-99999, 999999)])
+    for ax in ('vx', 'vy', 'vz'):       # velocities, integer ten-thousandths of nm/ps (written only when the system has velocities)
+        a[ax] = rng.choice(pool) if rng.random() < 0.2 else rng.choice([rng.randint(lo, hi), rng.randint(-99999, 99999)])
     if rng.random() < 0.3:
         # off-grid coordinate: the written value must be the nearest thousandth (offset strictly inside the cell)
         a['d'] = [0.0 if (a[ax] == 0) else rng.uniform(-0.4, 0.4) for ax in 'xyz']
         # stay inside the representable range
-        a['d'] = [min(d, 0.0) if a[ax] >= 9999999 else (max(d, 0.0) if a[ax] <= -999999 else d) for d, ax in zip(a['d'], 'xyz')]
+        a['d'] = [min(d, 0.0) if a[ax] >= hi else (max(d, 0.0) if a[ax] <= lo else d) for d, ax in zip(a['d'], 'xyz')]
     return a
 
 
@@ -147,7 +190,9 @@ def build_system(fmt, sizes, atoms, bonds, opts):
             if opts.get('atomid'):
                 attrs['atomid'] = 7 + 2 * gg
             if opts.get('vel'):
-                attrs['velocity'] = np.array([0.1, -0.2, 0.3])
+                attrs['velocity'] = np.array([a.get('vx', 0) / 1e4, a.get('vy', 0) / 1e4, a.get('vz', 0) / 1e4])
+            if a.get('altloc'):
+                attrs['altloc'] = a['altloc']
             mol.add_node(key, **attrs)
             keyof[gg] = key
         system.add_molecule(mol)
@@ -194,7 +239,10 @@ def _write(fmt, system, opts, path):
             fh.write(text)
         return text
     from vermouth.gmx import gro
-    gro.write_gro(system, path, defer_writing=False)
+    if opts.get('w', 8) == 8 and not opts.get('explicit_precision'):
+        gro.write_gro(system, path, defer_writing=False)              # default precision
+    else:
+        gro.write_gro(system, path, precision=opts.get('w', 8) - 1, defer_writing=False)
     with open(path) as fh:
         return fh.read()
 
@@ -270,11 +318,17 @@ def project_read(fmt, mols):
         for k, (key, d) in enumerate(mol.nodes(data=True), 1):
             where[key] = off + k
             p = d.get('position', (float('nan'),) * 3)
+            v = d.get('velocity', (0.0, 0.0, 0.0))
+            ch = d.get('charge', 0)
             back.append({'serial': _int32(d.get('atomid')), 'name': _txt(d.get('atomname')), 'resname': _txt(d.get('resname')),
                          'resid': _int32(d.get('resid')), 'chain': _txt(d.get('chain', '')),
                          'icode': _txt(d.get('insertion_code', '')),
                          'x': to_thousandths(float(p[0]), scale), 'y': to_thousandths(float(p[1]), scale),
-                         'z': to_thousandths(float(p[2]), scale), 'mol': mi})
+                         'z': to_thousandths(float(p[2]), scale), 'mol': mi,
+                         'vx': to_thousandths(float(v[0]), 1e4), 'vy': to_thousandths(float(v[1]), 1e4),
+                         'vz': to_thousandths(float(v[2]), 1e4), 'altloc': _txt(d.get('altloc', '')),
+                         'elem': _txt(d.get('element', '')),
+                         'charge': int(ch) if isinstance(ch, (int, float)) and ch == int(ch) and abs(ch) < 100 else BADV})
             pos.append((float(p[0]), float(p[1]), float(p[2])))
         for a, b in mol.edges:
             bonds.append(sorted((where[a], where[b])))
@@ -283,14 +337,20 @@ def project_read(fmt, mols):
     return back, sorted(bonds), sizes, pos
 
 
-def make_events(sid, fmt, sizes, atoms, bonds, text, mols, readerr):
+ATTR_DEFAULTS = {'altloc': '', 'vx': 0, 'vy': 0, 'vz': 0}
+
+
+def make_events(sid, fmt, sizes, atoms, bonds, text, mols, readerr, w=8, vel=False):
     """Split the written text and the read-back values into events for Trace_FixedCol."""
     lines = text.split('\n')
     if mols is not None:
         back, rbonds, rsizes, _ = project_read(fmt, mols)
     else:
         back, rbonds, rsizes = [], [], []
-    attrs = [{k: a[k] for k in ('name', 'resname', 'resid', 'chain', 'icode', 'elem', 'x', 'y', 'z')} for a in atoms]
+    attrs = [dict({k: a[k] for k in ('name', 'resname', 'resid', 'chain', 'icode', 'elem', 'x', 'y', 'z')},
+                  **{k: a.get(k, dv) for k, dv in ATTR_DEFAULTS.items()}) for a in atoms]
+    if fmt == 'pdb':
+        w, vel = 0, False
     events = []
     if fmt == 'pdb':
         recs = [ln[:6].strip() for ln in lines]
@@ -320,11 +380,12 @@ def make_events(sid, fmt, sizes, atoms, bonds, text, mols, readerr):
             body.pop()
         atom_lines = body[:-1]          # the last line is the box
         events.append({'kind': 'grostruct', 'sid': sid, 'natoms': len(atoms), 'count_line': lines[1] if len(lines) > 1 else '',
-                       'natomlines': len(atom_lines), 'nread': len(back), 'readerr': readerr})
+                       'natomlines': len(atom_lines), 'nread': len(back), 'readerr': readerr, 'w': w, 'vel': bool(vel),
+                       'first_line': atom_lines[0] if atom_lines else ''})
         gsizes = [len(atoms)]
     for g0 in range(0, len(atoms), CHUNK):
         events.append({'kind': 'atoms', 'sid': sid, 'fmt': fmt, 'sizes': gsizes, 'g0': g0 + 1, 'atoms': attrs[g0:g0 + CHUNK],
-                       'lines': atom_lines[g0:g0 + CHUNK], 'back': back[g0:g0 + CHUNK], 'readerr': readerr})
+                       'lines': atom_lines[g0:g0 + CHUNK], 'back': back[g0:g0 + CHUNK], 'readerr': readerr, 'w': w, 'vel': bool(vel)})
     return events
 
 
@@ -390,7 +451,7 @@ def run_system(task):
         placed[slot] = idx
     for i in range(total):
         if atoms[i] is None:
-            atoms[i] = random_atom(rng) if not task.get('plain') else default_atom()
+            atoms[i] = random_atom(rng, (task.get('opts') or {}).get('w', 8)) if not task.get('plain') else default_atom()
     bonds = set()
     for sc in task.get('sys', []):
         for p in sc['partners']:
@@ -402,7 +463,7 @@ def run_system(task):
     work = tlc.scratch('c16w_')
     system = build_system(fmt, sizes, atoms, bonds, opts)
     text, mols, readerr = write_and_read(fmt, system, opts, work)
-    events = make_events(task['sid'], fmt, sizes, atoms, bonds, text, mols, readerr)
+    events = make_events(task['sid'], fmt, sizes, atoms, bonds, text, mols, readerr, w=opts.get('w', 8), vel=opts.get('vel'))
     for e in events:
         e['opts'] = opts
     bad, nrep = [], 0
@@ -442,6 +503,366 @@ def run_system(task):
                         'atom %d: coordinate read back %.6f away from the value written (> 0.5e-3)' % (g, err)))
     shutil.rmtree(work, ignore_errors=True)
     return {'events': events, 'bad': bad, 'nrep': nrep, 'natoms': total, 'nbonds': len(bonds)}
+
+
+# ------------------------------------------------------------------------------------------- GRO: widths, sequences of reads
+def run_gro_seq(task):
+    """Several GRO files of DIFFERENT coordinate column widths (with / without velocities) are written, then read one after
+    the other IN THIS PROCESS (alternating read_gro and GROInput, the first file once more at the end); every read is
+    judged: the TAB 'grow' cases placed in the files against TLC's `out`, every line and value by the trace judge."""
+    logging.disable(logging.CRITICAL)
+    from vermouth.gmx import gro
+    from vermouth.system import System
+    from vermouth.processors.gro_reader import GROInput
+    work = tlc.scratch('c16q_')
+    files = []
+    out = {'events': [], 'bad': [], 'nrep': 0, 'natoms': 0, 'nbonds': 0, 'reads': 0, 'switches': 0}
+    for k, f in enumerate(task['files']):
+        rng = random.Random(f['seed'])
+        total = sum(f['sizes'])
+        atoms = [None] * total
+        slots = rng.sample(range(total), len(f.get('cases', [])))
+        placed = {}
+        for slot, (idx, inp) in zip(slots, f.get('cases', [])):
+            atoms[slot] = dict(default_atom(), chain='', **{k2: inp[k2] for k2 in ('name', 'resname', 'resid', 'x', 'y', 'z', 'vx', 'vy', 'vz')})
+            placed[slot] = idx
+        for i in range(total):
+            if atoms[i] is None:
+                atoms[i] = random_atom(rng, f['w'])
+        opts = {'keys': rng.choice(['seq', 'offset', 'rev']), 'atomid': rng.choice([False, 'inc', 'perm']), 'omit_empty': True,
+                'w': f['w'], 'vel': f['vel'], 'explicit_precision': rng.random() < 0.5, 'seq': task['sid']}
+        system = build_system('gro', f['sizes'], atoms, [], opts)
+        path = os.path.join(work, 'f%d.gro' % k)
+        try:
+            text, werr = _write('gro', system, opts, path), ''
+        except Exception as exc:
+            text, werr = '', 'writer raised ' + repr(exc)[:200]
+        with open(path, 'w') as fh:      # _write leaves the file; keep it for the reads below
+            fh.write(text)
+        files.append({'atoms': atoms, 'opts': opts, 'path': path, 'text': text, 'werr': werr, 'placed': placed, 'f': f})
+    prev_w = None
+    for pos, k in enumerate(task['order']):
+        fl = files[k]
+        f, opts = fl['f'], dict(fl['opts'], reader='func' if pos % 2 == 0 else 'processor', position=pos, order=task['order'],
+                                widths=[x['w'] for x in task['files']], vels=[x['vel'] for x in task['files']])
+        mols, readerr = None, fl['werr']
+        if not readerr:
+            try:
+                if pos % 2 == 0:
+                    mols = [gro.read_gro(fl['path'], exclude=())]
+                else:
+                    s2 = System()
+                    GROInput(fl['path']).run_system(s2)
+                    mols = list(s2.molecules)
+            except Exception as exc:
+                readerr = 'reader raised ' + repr(exc)[:200]
+        events = make_events('%s/read%d(w=%d%s)' % (task['sid'], pos, f['w'], ',vel' if f['vel'] else ''), 'gro', f['sizes'],
+                             fl['atoms'], [], fl['text'], mols, readerr, w=f['w'], vel=f['vel'])
+        for e in events:
+            e['opts'] = opts
+            e['seq'] = {'files': [{kk: x[kk] for kk in ('w', 'vel', 'sizes', 'seed')} for x in task['files']], 'order': task['order'][:pos + 1]}
+        out['events'] += events
+        out['reads'] += 1
+        out['switches'] += prev_w is not None and prev_w != f['w']
+        prev_w = f['w']
+        out['natoms'] += len(fl['atoms'])
+        if mols is not None:
+            back = project_read('gro', mols)[0]
+            if len(back) == len(fl['atoms']):
+                for slot, idx in fl['placed'].items():
+                    exp = f['expect'][idx]
+                    keys = ('name', 'resname', 'resid', 'x', 'y', 'z') + (('vx', 'vy', 'vz') if f['vel'] else ())
+                    got = {kk: back[slot][kk] for kk in keys}
+                    out['nrep'] += 1
+                    if not (all(got[kk] == exp['back'][kk] for kk in keys if kk != 'name') and got['name'] in exp['names']):
+                        out['bad'].append(('replay-mismatch', {'fmt': 'gro', 'sizes': f['sizes'], 'place': {str(slot + 1): fl['atoms'][slot]},
+                                                               'bonds': [], 'opts': opts, 'expected': exp['back'], 'got': got,
+                                                               'seq': events[0]['seq']},
+                                           'width %d%s, read number %d of this process: atom case read back as %r, TLC expects %r'
+                                           % (f['w'], ' with velocities' if f['vel'] else '', pos + 1, got, exp['back'])))
+            pc = precision_check('gro', fl['atoms'], mols)
+            if pc:
+                out['bad'].append(('coordinate-precision', {'fmt': 'gro', 'sizes': f['sizes'], 'place': {str(pc[0]): fl['atoms'][pc[0] - 1]},
+                                                            'bonds': [], 'opts': opts, 'seq': events[0]['seq']},
+                                   'atom %d: coordinate read back %.6f away from the value written (> 0.5e-3)' % pc))
+    shutil.rmtree(work, ignore_errors=True)
+    return out
+
+
+# ------------------------------------------------------------------------------------------- files vermouth did not write
+def pdb_atom_line(rec, serial, name4, altloc, resname, chain, resid, icode, xyz, occ=1.0, bfac=0.0, elem='', charge='', cut=80):
+    """One ATOM / HETATM line in the official columns; `name4` is the name as it stands in columns 13-16."""
+    line = '%-6s%5d %-4s%1s%3s %1s%4d%1s   %8.3f%8.3f%8.3f%6.2f%6.2f          %2s%2s' % (
+        rec, serial, name4, altloc, resname[:3], chain, resid, icode, xyz[0] / 1000.0, xyz[1] / 1000.0, xyz[2] / 1000.0, occ, bfac, elem, charge)
+    if len(resname) == 4:           # four-character residue names use column 21 as well
+        line = line[:17] + resname + line[21:]
+    return line[:cut].rstrip() if cut < 80 else line
+
+
+def _fcoord(rng):
+    v = rng.choice([rng.randint(-99999, 99999), rng.randint(-999999, 9999999), rng.choice([-999999, 9999999, 1, -1, 1000, -1000])])
+    return v
+
+
+HEADERS = ['HEADER    HYDROLASE                               01-JAN-00   1XYZ',
+           'TITLE     A FILE THAT VERMOUTH DID NOT WRITE',
+           'REMARK   2 RESOLUTION.    1.80 ANGSTROMS.',
+           'REMARK 465 MISSING RESIDUES ATOM   HETATM TER',
+           'SEQRES   1 A    3  ALA GLY SER',
+           'CRYST1   52.000   58.600   61.900  90.00  90.00  90.00 P 21 21 21    8',
+           'ORIGX1      1.000000  0.000000  0.000000        0.00000',
+           'SCALE1      0.019231  0.000000  0.000000        0.00000']
+PROT = [(' N  ', ' N'), (' CA ', ' C'), (' C  ', ' C'), (' O  ', ' O'), (' CB ', ' C'), ('HD21', ' H'), ('1HB ', ' H'), (' OXT', ' O')]
+
+
+def foreign_pdb(family, seed):
+    """Text of a PDB file as other programs write it (legal records that vermouth never writes).  Everything here is
+    INPUT generation: what the file means is decided by TLC from the text."""
+    rng = random.Random(seed)
+    L = []
+    serial = [rng.choice([1, 1, 7, 9990])]
+    conect = []
+
+    def residue(rec, resname, chain, resid, icode, names, altlocs=('',), cut=80, charge_on=None, anisou=False):
+        ids = {}
+        for name4, elem in names:
+            for al in altlocs:
+                xyz = [_fcoord(rng) for _ in range(3)]
+                ch = rng.choice(['1+', '1-', '2+', '2-']) if charge_on == name4 else ''
+                L.append(pdb_atom_line(rec, serial[0], name4, al, resname, chain, resid, icode, xyz, rng.choice([1.0, 0.5]),
+                                       rng.uniform(0, 99), elem if cut >= 78 else '', ch, cut))
+                if anisou:
+                    L.append('ANISOU%5d %-4s%1s%3s %1s%4d%1s %7d%7d%7d%7d%7d%7d      %2s' % (
+                        serial[0], name4, al, resname[:3], chain, resid, icode, 1, 2, 3, 4, 5, 6, elem))
+                ids.setdefault(name4, []).append((al, serial[0]))
+                serial[0] += 1
+        return ids
+
+    def ter(resname, chain, resid, style):
+        if style == 'full':
+            L.append('TER   %5d      %3s %1s%4d' % (serial[0], resname[:3], chain, resid))
+            serial[0] += 1
+        elif style == 'bare':
+            L.append('TER')
+
+    def add_conect(hub, partners, both=True):
+        todo = list(partners)
+        while todo:
+            cur, todo = todo[:4], todo[4:]
+            conect.append('CONECT%5d' % hub + ''.join('%5d' % p for p in cur))
+        if both:
+            for p in partners:
+                conect.append('CONECT%5d%5d' % (p, hub))
+
+    modelidx = 1
+    if family == 'hetatm':          # headers, ANISOU, HETATM ligand and waters after the chains, MASTER, END
+        L += HEADERS
+        for c, chain in enumerate('AB'):
+            for r in range(2):
+                residue('ATOM', rng.choice(['ALA', 'GLY', 'SER']), chain, 10 + r, '', PROT[:5], anisou=(r == 0))
+            ter('ALA', chain, 11, 'full')
+        lig = residue('HETATM', 'HEM', 'A', 201, '', [('FE  ', 'FE'), (' NA ', ' N'), (' NB ', ' N'), (' C1A', ' C'), (' O1A', ' O')])
+        add_conect(lig['FE  '][0][1], [lig[n][0][1] for n in (' NA ', ' NB ', ' C1A', ' O1A')])
+        for k in range(3):
+            residue('HETATM', 'HOH', 'A', 301 + k, '', [(' O  ', ' O')])
+        L.append('MASTER        0    0    0    0    0    0    0    6   28    2    0    0')
+    elif family == 'names':         # name column conventions, blank chain, negative numbers, insertion codes, charges, 4-char residue name
+        L += HEADERS[:2]
+        residue('ATOM', 'ASN', '', -12, '', PROT, charge_on=' N  ')
+        residue('ATOM', 'ASN', '', -1, 'A', PROT[:6], charge_on=' OXT')
+        residue('ATOM', 'ASN', '', -1, 'B', PROT[:6])
+        residue('ATOM', 'GLU', '', 0, '', PROT[:4] + [(' OE1', ' O')], charge_on=' OE1')
+        ter('GLU', '', 0, 'full')
+        residue('HETATM', ' CA', 'C', 500, '', [('CA  ', 'CA')], charge_on='CA  ')
+        residue('HETATM', ' CL', 'C', 501, '', [('CL  ', 'CL')], charge_on='CL  ')
+        residue('HETATM', ' ZN', 'C', 502, '', [('ZN  ', 'ZN')])
+        ter(' ZN', 'C', 502, 'bare')
+        residue('ATOM', 'DPPC', 'L', 1, '', [(' NC3', ' N'), (' PO4', ' P'), ('C1A ', ' C'), ("O5' ", ' O'), (' C1*', ' C')])
+        residue('ATOM', '  A', 'R', 9999, '', [(" O5'", ' O'), (" C5'", ' C'), (' P  ', ' P')])
+    elif family == 'altloc':        # alternate locations: blank and A stay, B / C go; CONECT naming a dropped atom
+        L += HEADERS[2:4]
+        a = residue('ATOM', 'SER', 'A', 5, '', PROT[:3])
+        b = residue('ATOM', 'SER', 'A', 5, '', [(' CB ', ' C'), (' OG ', ' O')], altlocs=('A', 'B'))
+        c = residue('ATOM', 'LYS', 'A', 6, '', PROT[:4])
+        d = residue('ATOM', 'LYS', 'A', 6, '', [(' CB ', ' C')], altlocs=('B', 'A', 'C'))
+        e = residue('ATOM', 'THR', 'A', 7, '', [(' N  ', ' N'), (' CA ', ' C')], altlocs=('B',))
+        add_conect(a[' CA '][0][1], [b[' CB '][0][1], b[' CB '][1][1]])          # CA - CB(A), CA - CB(B)
+        add_conect(b[' CB '][0][1], [b[' OG '][0][1]])
+        add_conect(b[' CB '][1][1], [b[' OG '][1][1]])                            # both ends dropped
+        add_conect(c[' CA '][0][1], [dict(d[' CB '])[x] for x in ('A', 'B', 'C')])
+        ter('THR', 'A', 7, 'full')
+    elif family == 'short':         # lines end after the coordinates / the B factor; no TER, no END
+        for r, cut in enumerate((54, 66, 78, 60, 54)):
+            residue('ATOM', 'GLY', 'A', 1 + r, '', PROT[:4], cut=cut)
+        L.append('TER')
+        residue('HETATM', 'LIG', 'B', 1, '', [(' C1 ', ' C'), (' C2 ', ' C'), (' O1 ', ' O')], cut=54)
+    elif family in ('model1', 'model2'):
+        modelidx = 1 if family == 'model1' else 2
+        L += HEADERS[:3] + ['NUMMDL    3']
+        first = serial[0]
+        lig = None
+        for m in (1, 2, 3):
+            serial[0] = first
+            L.append('MODEL     %4d' % m)
+            for chain in 'AB':
+                for r in range(1 + (chain == 'B')):
+                    residue('ATOM', 'ALA', chain, 1 + r, '', PROT[:5])
+                ter('ALA', chain, 1, 'full')
+            lig = residue('HETATM', 'LIG', 'X', 9, '', [(' C1 ', ' C'), (' C2 ', ' C'), (' C3 ', ' C')])
+            L.append('ENDMDL')
+        add_conect(lig[' C1 '][0][1], [lig[' C2 '][0][1], lig[' C3 '][0][1]])
+    elif family == 'conect':        # more than four partners over several lines, serials >= 10000 five wide and unseparated
+        serial[0] = 9996
+        names = [(' C%-2d' % k, ' C') for k in range(1, 13)]
+        lig = residue('HETATM', 'BIG', 'A', 1, '', names)
+        ids = [lig[n][0][1] for n, _ in names]
+        add_conect(ids[5], [ids[k] for k in (0, 1, 2, 3, 4, 6, 7, 8, 9)])
+        add_conect(ids[10], [ids[11]], both=False)
+        add_conect(ids[0], [ids[1], ids[2], ids[3], ids[4], ids[11]], both=False)
+        ter('BIG', 'A', 1, 'full')
+        lig2 = residue('HETATM', 'SML', 'B', 2, '', names[:3])
+        add_conect(lig2[names[0][0]][0][1], [lig2[names[1][0]][0][1], lig2[names[2][0]][0][1]])
+    else:                           # 'random': a mix
+        L += rng.sample(HEADERS, rng.randint(0, 4))
+        nchain = rng.randint(1, 3)
+        for c in range(nchain):
+            chain = rng.choice(['', 'A', 'B', 'Z', '1'])
+            rid = rng.choice([-20, -1, 1, 998, 9996])
+            last = None
+            for r in range(rng.randint(1, 4)):
+                rec = rng.choice(['ATOM', 'ATOM', 'HETATM'])
+                last = (rng.choice(['ALA', 'LYS', ' DA', '  U', 'HOH', 'POPC']), chain, rid + r)
+                ids = residue(rec, last[0], chain, rid + r, rng.choice(['', '', 'A']), rng.sample(PROT, rng.randint(1, 6)),
+                              altlocs=rng.choice([('',), ('',), ('A', 'B'), ('B', 'A')]), cut=rng.choice([80, 80, 78, 66, 54]),
+                              charge_on=rng.choice([None, ' N  ']), anisou=rng.random() < 0.2)
+                keep = [dict(v).get('', dict(v).get('A')) for v in ids.values()]
+                if len(keep) >= 2 and rng.random() < 0.6:
+                    add_conect(keep[0], keep[1:], both=rng.random() < 0.5)
+            if c < nchain - 1 or rng.random() < 0.5:
+                ter(last[0], last[1], last[2], rng.choice(['full', 'bare']))
+    L += conect
+    if family not in ('short',) and not (family == 'random' and rng.random() < 0.3):
+        L.append('END')
+    return '\n'.join(L) + '\n', modelidx
+
+
+def gro_line(resid, resname, name, serial, xyz, w, vel=None):
+    line = '%5d%-5s%5s%5d' % (resid % 100000, resname, name, serial % 100000) + ''.join('%*.3f' % (w, v / 1000.0) for v in xyz)
+    if vel is not None:
+        line += ''.join('%*.4f' % (w, v / 10000.0) for v in vel)
+    return line
+
+
+def foreign_gro(family, seed):
+    rng = random.Random(seed)
+    w, vel, nbox, resid0, serial0, n = {'wrap': (8, False, 3, 99998, 99995, 12), 'vel9box': (8, True, 9, 1, 1, 9),
+                                        'wide': (10, False, 3, 1, 1, 7), 'widevel': (9, True, 9, 998, 1, 8)}.get(
+        family, (rng.choice([8, 8, 9, 10]), rng.random() < 0.5, rng.choice([3, 9]), rng.choice([1, 99999, 5]), rng.choice([1, 99998]), rng.randint(1, 15)))
+    lo, hi = -(10 ** (w - 2) - 1), 10 ** (w - 1) - 1
+    title = rng.choice(['Protein in water t=   0.00000 step= 0', 'Generated by trjconv : 2168 system t= 15.000', 'GROup of MAchos and Cynical Suckers'])
+    L = [title, rng.choice(['%5d', ' %d', '%d ', '%8d']) % n]
+    for k in range(n):
+        xyz = [rng.choice([rng.randint(lo, hi), rng.randint(-9999, 99999), lo, hi]) for _ in range(3)]
+        if k == 0:
+            xyz = [rng.randint(10 ** (w - 3), hi) for _ in range(3)]       # the first line shows the width whatever reads it
+        v = [rng.choice([rng.randint(lo, hi), rng.randint(-99999, 99999)]) for _ in range(3)] if vel else None
+        L.append(gro_line(resid0 + k // 3, rng.choice(['ALA', 'SOL', 'POPC', 'DPPCX']), rng.choice(['CA', 'OW', 'HW1', 'C12A', 'BB', "O5'"]),
+                          serial0 + k, xyz, w, v))
+    L.append(''.join('%10.5f' % rng.uniform(0, 20) for _ in range(nbox)))
+    return '\n'.join(L) + '\n'
+
+
+def _increasing_ids(mols):
+    for m in mols:
+        ids = [d.get('atomid') for _, d in m.nodes(data=True)]
+        if any(b <= a for a, b in zip(ids, ids[1:])):
+            return False
+    return True
+
+
+def run_foreign(task):
+    """A file vermouth did not write is read by the real reader (judged against the text by TLC), what was read is written
+    by the real writer and read again (judged like any written system), and that is written once more (fixed point)."""
+    logging.disable(logging.CRITICAL)
+    import vermouth
+    from vermouth.system import System
+    from vermouth.pdb import pdb
+    from vermouth.gmx import gro
+    from vermouth.processors.gro_reader import GROInput
+    fmt, text = task['fmt'], task['text']
+    work = tlc.scratch('c16f_')
+    path = os.path.join(work, 'foreign.' + fmt)
+    with open(path, 'w') as fh:
+        fh.write(text)
+    lines = text.split('\n')
+    if lines and lines[-1] == '':
+        lines.pop()
+    out = {'events': [], 'bad': [], 'nrep': 0, 'natoms': 0, 'nbonds': 0}
+    opts = {'foreign': task['family'], 'reader': task['reader'], 'seed': task['seed'], 'modelidx': task.get('modelidx', 1)}
+    mols, readerr = None, ''
+    try:
+        if fmt == 'pdb':
+            if task['reader'] == 'processor':
+                s1 = System()
+                vermouth.processors.PDBInput(path, modelidx=task['modelidx']).run_system(s1)
+                mols = list(s1.molecules)
+            else:
+                mols = list(pdb.read_pdb(path, exclude=(), modelidx=task['modelidx']))
+        else:
+            if task.get('prime'):       # another GRO file of another width read first in this process
+                _primer_gro(gro, task['prime'], work)
+            if task['reader'] == 'processor':
+                s1 = System()
+                GROInput(path).run_system(s1)
+                mols = list(s1.molecules)
+            else:
+                mols = [gro.read_gro(path, exclude=())]
+    except Exception as exc:
+        readerr = 'reader raised ' + repr(exc)[:200]
+    e = {'kind': 'f' + fmt, 'sid': task['sid'], 'lines': lines, 'readerr': readerr, 'opts': opts, 'text': text,
+         'back': [], 'read_sizes': [], 'read_bonds': [], 'rewrite1': ['-'], 'rewrite2': ['-'], 'modelidx': task.get('modelidx', 1), 'nbox': 0}
+    out['events'].append(e)
+    if mols is None:
+        shutil.rmtree(work, ignore_errors=True)
+        return out
+    back, rbonds, rsizes, _ = project_read(fmt, mols)
+    e.update(back=back, read_sizes=rsizes, read_bonds=rbonds)
+    if fmt == 'gro':
+        e['nbox'] = len(getattr(mols[0], 'box', ()))
+    out['natoms'] += len(back)
+    out['nbonds'] += len(rbonds)
+    values_ok = all(name_ok(b['name']) and b['resname'] and BADV not in (b['x'], b['y'], b['z'], b['resid']) for b in back)
+    if _increasing_ids(mols) and values_ok and all(len(m) for m in mols):
+        # second round trip: what was read is a system like any other
+        w, vel = 8, False
+        if fmt == 'gro':
+            first = lines[2]
+            dots = [i for i, c in enumerate(first) if c == '.' and i >= 20]
+            w, vel = dots[1] - dots[0], first.count('.') == 6      # only to ask the writer for the same layout; TLC checks the written file shows it
+        wopts = dict(opts, writer='string', reader='func', w=w, vel=vel, explicit_precision=True)
+        system = System()
+        for m in mols:
+            system.add_molecule(m.copy())
+        atoms = [dict(b, elem=b['elem']) for b in back]
+        text1, mols2, err2 = write_and_read(fmt, system, wopts, work)
+        ev2 = make_events(task['sid'] + ':rewrite', fmt, rsizes, atoms, [tuple(b) for b in rbonds], text1, mols2, err2, w=w, vel=vel)
+        for x in ev2:
+            x['opts'] = wopts
+            x['text'] = text
+        out['events'] += ev2
+        text2 = ''
+        if mols2 is not None:
+            s3 = System()
+            for m in mols2:
+                s3.add_molecule(m)
+            try:
+                text2 = _write(fmt, s3, wopts, os.path.join(work, 'again.' + fmt))
+            except Exception as exc:
+                text2 = 'writer raised ' + repr(exc)[:200]
+        e['rewrite1'], e['rewrite2'] = text1.split('\n'), text2.split('\n')
+        out['rewritten'] = 1
+    shutil.rmtree(work, ignore_errors=True)
+    return out
 
 
 # ------------------------------------------------------------------------------------------- shipped structures
@@ -516,9 +937,11 @@ def run_shipped(task):
 
 
 # ------------------------------------------------------------------------------------------- TLC judge
-EVENT_KEYS = {'atoms': ('kind', 'fmt', 'sizes', 'g0', 'atoms', 'lines', 'back', 'readerr'),
+EVENT_KEYS = {'atoms': ('kind', 'fmt', 'sizes', 'g0', 'atoms', 'lines', 'back', 'readerr', 'w', 'vel'),
+              'fpdb': ('kind', 'lines', 'modelidx', 'back', 'read_sizes', 'read_bonds', 'readerr', 'rewrite1', 'rewrite2'),
+              'fgro': ('kind', 'lines', 'back', 'nbox', 'readerr', 'rewrite1', 'rewrite2'),
               'pdbstruct': ('kind', 'sizes', 'bonds', 'layout', 'ters', 'conect', 'read_sizes', 'read_bonds', 'readerr'),
-              'grostruct': ('kind', 'natoms', 'count_line', 'natomlines', 'nread', 'readerr')}
+              'grostruct': ('kind', 'natoms', 'count_line', 'natomlines', 'nread', 'readerr', 'w', 'vel', 'first_line')}
 
 
 def _weight(e):
@@ -584,8 +1007,16 @@ def scenario_of(e, verdict):
         sc['bonds'] = e['bonds'][:3000]
         sc['conect_head'] = e['conect'][:5]
         sc['read_sizes'] = e['read_sizes']
+    elif e['kind'] in ('fpdb', 'fgro'):
+        sc.update({'foreign': {k: e['opts'][k] for k in ('foreign', 'reader', 'seed', 'modelidx')}, 'text': e['text'], 'fmt': e['kind'][1:],
+                   'read_sizes': e['read_sizes'], 'read_bonds': e['read_bonds'], 'atoms_read': e['back'][:60]})
     else:
         sc.update({k: e[k] for k in ('natoms', 'count_line', 'natomlines', 'nread')})
+    if e.get('seq'):
+        sc['seq'] = e['seq']
+    if e.get('text') and e['kind'] not in ('fpdb', 'fgro'):
+        sc['foreign'] = {k: e['opts'][k] for k in ('foreign', 'reader', 'seed', 'modelidx')}
+        sc['text'] = e['text']
     if sc['opts'].get('shipped'):
         sc['shipped'] = sc['opts']['shipped']
     return sc
@@ -598,7 +1029,9 @@ def run(tier, seed, ev, vd):
                'coordinate per format, and every (shape, hub next to a serial boundary, degree 0..6, partner choice); TRACE: every '
                'line of every written file. Non-trivial = atom case with at least one overflowing field, sys case whose hub or '
                'partner has a serial >= 9999 or degree >= 5 (CONECT continuation), judged slice of a file containing an atom '
-               'with serial >= 10000 or bonds; distinct by input.')
+               'with serial >= 10000 or bonds; TAB grow case with a value that does not fit the next narrower width or an overflowing '
+               'field, judged slice of a GRO file of width other than 8 or with velocities, judged file that vermouth did not write; '
+               'distinct by input.')
     ev.assumptions = ['TLC evaluates the operators correctly (strings with Len/SubSeq/\\o/Tail)',
                       'coordinates are generated inside the representable range -999.999..9999.999 of the format unit, off-grid '
                       'values at most 0.4 thousandths from a grid point, never a negative value that rounds to zero; the harness '
@@ -608,6 +1041,20 @@ def run(tier, seed, ev, vd):
                       'which end of an over-long text survives in a right-aligned text column (GRO atom name) is left open: both admissible',
                       'systems beyond the five-digit numbering are written without bonds; only their atoms are compared',
                       'readers are called with exclude=() (the default exclude of SOL is an input filter, not part of the round trip)',
+                      'GRO files are written with coordinate widths 7..13 (write_gro precision 6..12); every coordinate and velocity fits '
+                      'the width of its file (the reader takes the width from the first atom line); velocities have the width of the '
+                      'coordinates and four decimals, as write_gro writes them (GROMACS itself writes high-precision velocities with '
+                      'one more decimal in the same width: such files are not generated); names contain no "."; values of width 12 '
+                      'and 13 are limited to +-1999999.999 (32-bit integers in TLC)',
+                      'files that vermouth did not write go beyond the literal statement (which starts from a system in memory): the '
+                      'reader is judged against the column tables of the spec (verdicts prefixed foreign-), only on records whose '
+                      'meaning the PDB / GRO formats fix: unique increasing serial numbers, CONECT inside one molecule (a CONECT across '
+                      'a TER makes the reader merge molecules: C10 reader layer), MODEL records all with ENDMDL, residue numbers inside '
+                      'four columns, no "-0.000", three decimals; the judge answers "unspecified: ..." (machinery failure) otherwise. '
+                      'Files whose atom numbers wrap (GRO at 100000) are read and judged but not written again: the writers list atoms '
+                      'by atom id, so the order of such a system is unspecified',
+                      'CIF: not covered by the statement (PDB or GRO, written and read back; no CIF writer exists, the anchors do not '
+                      'name vermouth/pdb/cif.py): the CIF reader is left unbound',
                       'atom order of a system = molecule order, insertion order inside a molecule; atomid attributes, when present, increase']
     consts = tab_consts(tier)
     res = tlc.run('FixedCol', TAB_CFG, consts=consts, dump=True, timeout=2400)
@@ -621,9 +1068,16 @@ def run(tier, seed, ev, vd):
     shapes = Q_SHAPES if quick else T_SHAPES
     atom_cases = {'pdb': [], 'gro': []}
     sys_cases = {k: [] for k in range(len(shapes))}
+    grow_cases = {(w, v): [] for w in WIDTHS for v in (False, True)}
     for s in states:
         c, o = s['case'], s['out']
-        if c['kind'] == 'atom':
+        if c['kind'] == 'grow':
+            grow_cases[(c['w'], bool(c['vel']))].append({'input': dict(o['input']), 'back': dict(o['back']), 'names': sorted(o['names']),
+                                                         'over': sorted(o['over']), 'narrow': sorted(o['narrow']),
+                                                         'sensitive': bool(o['sensitive']), 'line': o['line']})
+            if o['narrow'] or o['over']:
+                ev.nontrivial_case(['grow', c])
+        elif c['kind'] == 'atom':
             atom_cases[c['fmt']].append({'input': dict(o['input']), 'back': dict(o['back']), 'names': sorted(o['names']),
                                          'over': sorted(o['over']), 'line': o['line']})
             if o['over']:
@@ -639,6 +1093,13 @@ def run(tier, seed, ev, vd):
                 ev.nontrivial_case(['sys', c])
     if not atom_cases['pdb'] or not atom_cases['gro'] or not all(sys_cases.values()):
         raise tlc.MachineryError('vacuous TAB model')
+    for key, cases in grow_cases.items():
+        # vacuity (independent of the seed: decided by the TAB model): every width, with and without velocities, has values that do not
+        # fit the next narrower width and records that no other width reads alike
+        if not any(c['narrow'] for c in cases) or not any(c['sensitive'] for c in cases):
+            raise tlc.MachineryError('vacuous TAB model: no decisive GRO width case for width %d, velocities %s' % key)
+    ev.sample({'kind': 'TAB grow case (replayed): GRO line of coordinate width 12 with velocities',
+               'case': next(a for a in grow_cases[(12, True)] if a['narrow'] and a['sensitive'])}, limit=6)
     ev.sample({'kind': 'TAB atom case (replayed)', 'case': next(a for a in atom_cases['pdb'] if len(a['over']) >= 2)})
     ev.sample({'kind': 'TAB sys case (replayed)', 'shape': shapes[1], 'case': next(s for s in sys_cases[1] if s['deg'] == 6 and s['hubserial'] > 9990)})
 
@@ -677,10 +1138,54 @@ def run(tier, seed, ev, vd):
                       'seed': rng.randrange(1 << 30), 'fits': True})
     tasks.sort(key=lambda t: -sum(t['sizes']) ** (2 if t['fmt'] == 'pdb' else 1))
     ship = [{'path': p} for p in shipped_files(tier)]
+    # GRO column widths: every TAB grow case sits in the file of its (width, velocities); the eight files are read in two
+    # processes, each reading four files of four different widths one after the other (and the first once more)
+    def gfile(w, vel):
+        cases = grow_cases[(w, vel)]
+        return {'w': w, 'vel': vel, 'sizes': [len(cases) + 20, 15], 'seed': rng.randrange(1 << 30),
+                'cases': [(i, c['input']) for i, c in enumerate(cases)], 'expect': dict(enumerate(cases))}
+    seqs = [{'sid': 'groseq-tab1', 'files': [gfile(8, False), gfile(9, True), gfile(10, False), gfile(12, True)], 'order': [0, 1, 2, 3, 0]},
+            {'sid': 'groseq-tab2', 'files': [gfile(12, False), gfile(10, True), gfile(9, False), gfile(8, True)], 'order': [0, 1, 2, 3, 0]}]
+    for k in range(6 if quick else 60):
+        nf = 3 + k % 3
+        ws = [rng.choice((7, 8, 8, 9, 10, 11, 12, 13)) for _ in range(nf)]
+        for j in range(1, nf):          # neighbours in the order of reading always differ in width
+            while ws[j] == ws[j - 1]:
+                ws[j] = rng.choice((7, 8, 9, 10, 11, 12, 13))
+        seqs.append({'sid': 'groseq-rnd%d' % k, 'order': list(range(nf)) + [0],
+                     'files': [{'w': w, 'vel': rng.random() < 0.5, 'sizes': [rng.randint(1, 30) for _ in range(rng.randint(1, 3))],
+                                'seed': rng.randrange(1 << 30)} for w in ws]})
+    # files that vermouth did not write
+    foreign = []
+    fams = ['hetatm', 'names', 'altloc', 'short', 'model1', 'model2', 'conect'] + ['random'] * (10 if quick else 150)
+    for k, fam in enumerate(fams):
+        fseed = rng.randrange(1 << 30)
+        text, modelidx = foreign_pdb(fam, fseed)
+        foreign.append({'sid': 'foreign-pdb-%s%d' % (fam, k), 'fmt': 'pdb', 'family': fam, 'seed': fseed, 'text': text, 'modelidx': modelidx,
+                        'reader': 'func' if k % 2 == 0 else 'processor'})
+    gfams = ['wrap', 'vel9box', 'wide', 'widevel'] + ['random'] * (6 if quick else 80)
+    for k, fam in enumerate(gfams):
+        fseed = rng.randrange(1 << 30)
+        foreign.append({'sid': 'foreign-gro-%s%d' % (fam, k), 'fmt': 'gro', 'family': fam, 'seed': fseed, 'text': foreign_gro(fam, fseed),
+                        'reader': 'func' if k % 2 == 0 else 'processor', 'prime': (0, 8, 6)[k % 3]})
     with mp.Pool(tlc.NCPU, maxtasksperchild=1) as pool:
         r1 = pool.map_async(run_system, tasks, chunksize=1)
         r2 = pool.map_async(run_shipped, ship, chunksize=1)
+        r3 = pool.map_async(run_gro_seq, seqs, chunksize=1)
+        r4 = pool.map_async(run_foreign, foreign, chunksize=1)
         results = r1.get() + r2.get()
+        rseq, rfor = r3.get(), r4.get()
+    # vacuity rules of the new families (fixed by the construction above, not by the seed)
+    ngrow = sum(len(v) for v in grow_cases.values())
+    if sum(r['nrep'] for r in rseq[:2]) < ngrow and not any(r['bad'] or any(e['readerr'] for e in r['events']) for r in rseq[:2]):
+        raise tlc.MachineryError('GRO width cases: %d of %d TAB cases replayed' % (sum(r['nrep'] for r in rseq[:2]), ngrow))
+    if sum(r['switches'] for r in rseq) < 8 + 2 * (len(seqs) - 2):
+        raise tlc.MachineryError('GRO read sequences: too few reads after a file of another width')
+    ev.extra['gro_width_cases_replayed'] = sum(r['nrep'] for r in rseq)
+    ev.extra['gro_reads_in_sequences'] = sum(r['reads'] for r in rseq)
+    ev.extra['gro_reads_after_another_width'] = sum(r['switches'] for r in rseq)
+    ev.extra['foreign_files'] = {'pdb': len(fams), 'gro': len(gfams), 'rewritten_and_read_again': sum(r.get('rewritten', 0) for r in rfor)}
+    results += rseq + rfor
     events = []
     skipped = []
     for r in results:
@@ -701,19 +1206,36 @@ def run(tier, seed, ev, vd):
     ev.transitions += gen
     ev.tlc_runs.append({'run': 'TRACE Trace_FixedCol', 'events': len(events), 'distinct_states': dist, 'states_generated': gen})
     reported = set()
+    fstats = {}
     for e, v in zip(events, verdicts):
         ev.traces += 1
         ev.evaluations += len(e.get('atoms', ())) + len(e.get('conect', ())) + 1
+        if v.startswith('unspecified'):
+            raise tlc.MachineryError('generated file outside what is specified (%s): %s' % (e.get('sid'), v))
         if v != 'ok':
             key = (e.get('sid'), re.sub(r'\d+', '#', v))
             if key in reported:
                 continue
             reported.add(key)
             vd.violation('trace-rejected', scenario_of(e, v), v)
+        if e['kind'] in ('fpdb', 'fgro'):
+            ev.nontrivial_case(['foreign', e['sid'], len(e['lines'])])
+            fstats[e['opts']['foreign']] = fstats.get(e['opts']['foreign'], 0) + len(e['back'])
+        elif e['kind'] == 'atoms' and e['fmt'] == 'gro' and (e['w'] != 8 or e['vel']):
+            ev.nontrivial_case(['gro-width', e['sid'], e['g0']])
         if e['kind'] == 'atoms' and e['g0'] + len(e['atoms']) > 9999:
             ev.nontrivial_case(['slice', e['sid'], e['g0']])
         elif e['kind'] == 'pdbstruct' and e['bonds']:
             ev.nontrivial_case(['struct', e['sid'], len(e['bonds'])])
+    # vacuity of the foreign families: TLC found atoms to compare in every fixed family (the text decides, not the generator)
+    for fam in ('hetatm', 'names', 'altloc', 'short', 'model1', 'model2', 'conect', 'wrap', 'vel9box', 'wide', 'widevel'):
+        if not fstats.get(fam) and vd.count() == 0:
+            raise tlc.MachineryError('foreign family %s: no atom was read and judged' % fam)
+    ev.extra['foreign_atoms_judged_per_family'] = fstats
+    fe = next((e for e in events if e['kind'] == 'fpdb' and e['opts']['foreign'] == 'altloc'), None)
+    if fe:
+        ev.sample({'kind': 'foreign PDB file read by the real reader, text judged by TLC', 'lines': fe['lines'],
+                   'read_sizes': fe['read_sizes'], 'read_bonds': fe['read_bonds'], 'atoms_read': len(fe['back']), 'verdict': 'ok'}, limit=6)
     small = next((e for e in events if e['kind'] == 'atoms' and len(e['atoms']) <= 3), None)
     if small:
         ev.sample({'kind': 'written+read slice judged by TLC', 'event': {k: small[k] for k in EVENT_KEYS['atoms']}, 'verdict': 'ok'})
@@ -734,13 +1256,32 @@ def replay(sc):
     if sc.get('shipped') and not sc.get('place'):
         r = run_shipped({'path': os.path.join(REPO, sc['shipped'])})
         events = r['events']
+    elif sc.get('foreign') and sc.get('text'):
+        f = sc['foreign']
+        fmt = 'gro' if sc.get('fmt') == 'gro' or (sc.get('opts') or {}).get('w') else 'pdb'
+        print('file that vermouth did not write (%s, family %s, reader %s, modelidx %s):' % (fmt, f['foreign'], f['reader'], f['modelidx']))
+        print(sc['text'])
+        r = run_foreign({'sid': 'replay', 'fmt': fmt, 'family': f['foreign'], 'seed': f['seed'], 'text': sc['text'],
+                         'modelidx': f['modelidx'], 'reader': f['reader'], 'prime': 0})
+        events = r['events']
+        print('read by the real reader: molecule sizes %r, bonds %r' % (events[0]['read_sizes'], events[0]['read_bonds']))
+        for k, b in enumerate(events[0]['back'], 1):
+            print('   atom %d: %r' % (k, b))
+    elif sc.get('seq'):
+        q = sc['seq']
+        print('GRO files written with coordinate widths %r (velocities %r), read in this order in one process: %r'
+              % ([x['w'] for x in q['files']], [x['vel'] for x in q['files']], q['order']))
+        r = run_gro_seq({'sid': 'replay', 'files': q['files'], 'order': q['order']})
+        events = r['events']
+        for kind, _, detail in r['bad']:
+            print(kind, detail)
     else:
         fmt = sc['fmt']
         sizes, atoms, bonds = _scenario_task(sc)
         opts = sc.get('opts') or {}
         system = build_system(fmt, sizes, atoms, bonds, opts)
         text, mols, readerr = write_and_read(fmt, system, opts, tlc.scratch('c16r_'))
-        events = make_events('replay', fmt, sizes, atoms, bonds, text, mols, readerr)
+        events = make_events('replay', fmt, sizes, atoms, bonds, text, mols, readerr, w=opts.get('w', 8), vel=opts.get('vel'))
         lines = [ln for ln in text.split('\n') if fmt == 'gro' or ln[:4] in ('ATOM', 'HETA')]
         if fmt == 'gro':
             lines = lines[2:]
@@ -810,6 +1351,42 @@ def selftest(seed):
     base.append(big)
     tamper(big, 'CONECT serials cut to four digits', lambda c: c.__setitem__('conect', ['CONECT 9999 0001']))
     tamper(big, 'TER serial not counted', lambda c: c['ters'][0].__setitem__('line', 'TER   10005      ALA A   1 '))
+    # --- GRO column widths: a file of width 10 with velocities, read after a file of width 8
+    rs = run_gro_seq({'sid': 'self-seq', 'order': [0, 1],
+                      'files': [{'w': 8, 'vel': False, 'sizes': [4], 'seed': rng.randrange(1 << 30)},
+                                {'w': 10, 'vel': True, 'sizes': [6, 3], 'seed': rng.randrange(1 << 30)}]})
+    assert not rs['bad'], rs['bad']
+    base += rs['events']
+    wa = next(e for e in rs['events'] if e['kind'] == 'atoms' and e['w'] == 10)
+    ws = next(e for e in rs['events'] if e['kind'] == 'grostruct' and e['w'] == 10)
+    tamper(wa, 'width-10 file: read-back vx off by 0.0001', lambda c: c['back'][2].__setitem__('vx', c['back'][2]['vx'] + 1))
+    tamper(wa, 'width-10 file: read-back z off by 0.001', lambda c: c['back'][5].__setitem__('z', c['back'][5]['z'] - 1))
+    tamper(wa, 'width-10 file judged as if it were width 9', lambda c: c.__setitem__('w', 9))
+    tamper(wa, 'width-10 file with velocities judged as if it had none', lambda c: c.__setitem__('vel', False))
+    tamper(wa, 'width-10 file: one velocity column written 9 wide', lambda c: c['lines'].__setitem__(1, c['lines'][1][:50] + c['lines'][1][51:]))
+    tamper(ws, 'first atom line shows another width', lambda c: c.__setitem__('first_line', rs['events'][1]['lines'][0]))
+    # --- files vermouth did not write
+    ftext, fidx = foreign_pdb('altloc', 5)
+    fa = run_foreign({'sid': 'self-falt', 'fmt': 'pdb', 'family': 'altloc', 'seed': 5, 'text': ftext, 'modelidx': fidx, 'reader': 'func'})['events']
+    ftext, fidx = foreign_pdb('model2', 6)
+    fm = run_foreign({'sid': 'self-fmod', 'fmt': 'pdb', 'family': 'model2', 'seed': 6, 'text': ftext, 'modelidx': fidx, 'reader': 'processor'})['events']
+    ftext, fidx = foreign_pdb('conect', 7)
+    fc = run_foreign({'sid': 'self-fcon', 'fmt': 'pdb', 'family': 'conect', 'seed': 7, 'text': ftext, 'modelidx': fidx, 'reader': 'func'})['events']
+    fg = run_foreign({'sid': 'self-fgro', 'fmt': 'gro', 'family': 'widevel', 'seed': 8, 'text': foreign_gro('widevel', 8), 'reader': 'func', 'prime': 0})['events']
+    base += fa + fm + fc + fg
+    assert fa[0]['kind'] == 'fpdb' and len(fa) > 1 and fc[0]['read_bonds'] and fg[0]['kind'] == 'fgro' and len(fg) > 1
+    tamper(fa[0], 'foreign PDB: an atom of alternate location B kept', lambda c: c['back'].insert(4, dict(c['back'][3], altloc='B')))
+    tamper(fa[0], 'foreign PDB: bond to the dropped alternate location invented', lambda c: c['read_bonds'].append([1, 3]))
+    tamper(fa[0], 'foreign PDB: name read from the wrong columns', lambda c: c['back'][1].__setitem__('name', 'A'))
+    tamper(fa[0], 'foreign PDB: second writing differs', lambda c: c['rewrite2'].__setitem__(0, c['rewrite2'][0] + ' '))
+    tamper(fm[0], 'foreign PDB: model 1 returned when model 2 was asked for', lambda c: c.__setitem__('modelidx', 1))
+    tamper(fm[0], 'foreign PDB: chains merged (TER ignored)', lambda c: c.__setitem__('read_sizes', [sum(c['read_sizes'])]))
+    tamper(fm[0], 'foreign PDB: negative / large residue number changed', lambda c: c['back'][0].__setitem__('resid', c['back'][0]['resid'] + 1))
+    tamper(fc[0], 'foreign PDB: continuation CONECT line lost', lambda c: c['read_bonds'].pop())
+    tamper(fc[0], 'foreign PDB: element column ignored', lambda c: c['back'][0].__setitem__('elem', 'X'))
+    tamper(fg[0], 'foreign GRO: velocity read with another width', lambda c: c['back'][3].__setitem__('vy', c['back'][3]['vy'] // 10))
+    tamper(fg[0], 'foreign GRO: box line read as three numbers', lambda c: c.__setitem__('nbox', 3))
+    tamper(fg[0], 'foreign GRO: an atom lost', lambda c: c['back'].pop())
     events = base + tampered
     verdicts, _ = judge_events(events, nproc=4)
     ok_base = all(v == 'ok' for v in verdicts[:len(base)])
